@@ -46,7 +46,7 @@ def run(chk: harness.Check):
         "table on every path from the Some outcome of resolve_reference to the push, and before it; it records all.len(); (D4) step_counter is written "
         "only as `= 1` under the Section arm and `+= 1` under is_step() followed by the content push, and Step.number reads it; (D5) sections are pushed "
         "only under !is_empty(); (D6) Step references index the is_step-filtered enumeration of the current section, Section references are dominated by "
-        "a bounds test against content.sections.len(). These are necessary conditions; index values are never computed.")
+        "a bounds test against content.sections.len(); (D9) the name under which references are matched is the component's own `name` field for ingredients and cookware. These are necessary conditions; index values are never computed.")
     chk.trusted = ["rustc MIR, resolved callees", "Vec::push appends at index len()"]
     chk.analysed = {"facts": th}
     d1_index(chk, F)
@@ -57,6 +57,7 @@ def run(chk: harness.Check):
     d6_intermediate(chk, F)
     d7_text_nonempty(chk, F)
     d8_timer_nonempty(chk, F)
+    d9_ref_name(chk, F)
 
 
 def _variant_defs(f, op, variant, depth=0, seen=None):
@@ -81,6 +82,25 @@ def _variant_defs(f, op, variant, depth=0, seen=None):
         elif rv["k"] == "use":
             out += _variant_defs(f, rv["op"], variant, depth + 1, seen)
     return out
+
+
+def d9_ref_name(chk, F):
+    """'every reference has the same name (ignoring case) as its definition': the name under which resolve_reference looks a component
+    up is the component's own `name` field — RefComponent::name returns `&self.name` for ingredients and cookware alike, not the alias,
+    the display name or anything computed."""
+    R_ = "C06.D9-ref-name"
+    impls = [g for k, g in F.funcs.items() if k.endswith("RefComponent>::name") and g.crate == "cooklang" and not g.is_closure()]
+    chk.floor(R_, "RefComponent::name implementations", len(impls), 2)
+    for g in impls:
+        e = resolve_place(g, {"l": 0, "p": []})
+        ls = leaves(e)
+        calls = [l[5:] for l in ls if l.startswith("call:")]
+        extra = [c for c in calls if not c.endswith(("Deref>::deref", "String::as_str", "AsRef<str>>::as_ref", "Borrow<str>>::borrow", "AsRef<T>>::as_ref", "Borrow<T>>::borrow"))]
+        ok = "param:self.name" in ls and not extra and not any(l.startswith("param:self.") and l != "param:self.name" for l in ls)
+        ty = re.search(r"model::(\w+)", g.key).group(1) if re.search(r"model::(\w+)", g.key) else g.key
+        chk.expect(ok, R_, f"{ty}|name", f"{g.file}:{g.line}",
+                   f"the lookup name of a {ty} is {full_text(e)[:100]}, not its `name` field: a reference could be matched with a definition of a different name",
+                   sample=f"{g.file}:{g.line}: RefComponent::name = &self.name")
 
 
 def d8_timer_nonempty(chk, F):
